@@ -129,16 +129,12 @@ def check():
             plans.append((s, ["0.1", "0.5"][i % 2], 3, i % 2))
     if not gate:
         workers = int(os.environ.get("VERIF_WORKERS", "8"))
-        # build once (cargo miri build), then fan the runs out
-        e = env()
-        e["MIRIFLAGS"] = BASE_FLAGS
-        b = subprocess.run(["cargo", "+nightly", "miri", "build", "--offline"], cwd=CRATE, env=e, capture_output=True, text=True)
-        if b.returncode != 0:
-            print("HARNESS-ERROR cargo miri build failed:\n" + b.stderr[-1500:])
-            return 2
-        with concurrent.futures.ThreadPoolExecutor(max_workers=workers) as ex:
-            for r in ex.map(lambda p: run_one(*p), plans):
-                runs.append(r)
+        # the first run also compiles the crate for Miri; the others then run in parallel
+        runs.append(run_one(*plans[0]))
+        if "harness" not in runs[0] and len(plans) > 1:
+            with concurrent.futures.ThreadPoolExecutor(max_workers=workers) as ex:
+                for r in ex.map(lambda p: run_one(*p), plans[1:]):
+                    runs.append(r)
         for r in runs:
             if "harness" in r:
                 print("HARNESS-ERROR miri run failed:\n" + r["harness"])
